@@ -186,6 +186,18 @@ Definition fault_code (f : fault) : Z :=
   end.
 
 (* ---- cases --------------------------------------------------------------------------------------- *)
+(* the package-level variables of src/vm that have been reviewed: constants (big ints, errors, lookup tables,
+   function values), the logger, and the two sync.Pools (safe for concurrent use).  None is scratch state
+   written by an execute function.  A new package-level variable makes the TPkgVars case fail until reviewed. *)
+Definition known_pkg_vars : list string :=
+  ["contracts.go:PrecompiledAddresses"; "contracts.go:PrecompiledContracts"; "contracts.go:big0"; "contracts.go:big1"; "contracts.go:big1024"; "contracts.go:big16"; "contracts.go:big199680"; "contracts.go:big3072"; "contracts.go:big32"; "contracts.go:big4"; "contracts.go:big480"; "contracts.go:big64"; "contracts.go:big8"; "contracts.go:big96"; "contracts.go:errBLS12381G1PointSubgroup"; "contracts.go:errBLS12381G2PointSubgroup"; "contracts.go:errBLS12381InvalidFieldElementTopBytes"; "contracts.go:errBLS12381InvalidInputLength"; "contracts.go:errBadPairingInput"; "contracts.go:errBlake2FInvalidFinalFlag"; "contracts.go:errBlake2FInvalidInputLength"; "contracts.go:false32Byte"; "contracts.go:true32Byte"; "errors.go:ErrCodeStoreOutOfGas"; "errors.go:ErrContractAddressCollision"; "errors.go:ErrDepth"; "errors.go:ErrExecutionReverted"; "errors.go:ErrGasUintOverflow"; "errors.go:ErrInsufficientBalance"; "errors.go:ErrInvalidJump"; "errors.go:ErrInvalidRetsub"; "errors.go:ErrInvalidSubroutineEntry"; "errors.go:ErrMaxCodeSizeExceeded"; "errors.go:ErrNonceTooHigh"; "errors.go:ErrNonceTooLow"; "errors.go:ErrOutOfGas"; "errors.go:ErrReturnDataOutOfBounds"; "errors.go:ErrReturnStackExceeded"; "errors.go:ErrWriteProtection"; "evm.go:emptyCodeHash"; "evm.go:errSubChainNoCreate"; "gas_table.go:gasAuth"; "gas_table.go:gasCallDataCopy"; "gas_table.go:gasCodeCopy"; "gas_table.go:gasCreate"; "gas_table.go:gasExtCodeCopy"; "gas_table.go:gasMLoad"; "gas_table.go:gasMStore"; "gas_table.go:gasMStore8"; "gas_table.go:gasMcopy"; "gas_table.go:gasReturn"; "gas_table.go:gasReturnDataCopy"; "gas_table.go:gasRevert"; "init.go:logger"; "init.go:vmTracer"; "logger.go:errTraceLimitReached"; "opcodes.go:opCodeToString"; "opcodes.go:stringToOp"; "operations_acl.go:gasCallCodeEIP2929"; "operations_acl.go:gasCallEIP2929"; "operations_acl.go:gasDelegateCallEIP2929"; "operations_acl.go:gasStaticCallEIP2929"; "param.go:Bls12381MultiExpDiscountTable"; "stack.go:rStackPool"; "stack.go:stackPool"]%string.
+Fixpoint str_list_eqb (a b : list string) : bool :=
+  match a, b with
+  | [], [] => true
+  | x :: r, y :: t => String.eqb x y && str_list_eqb r t
+  | _, _ => false
+  end.
+
 Inductive tcase :=
 | TEntry (fork opc : Z) (e : entry)
 | TMem (name : string) (stk : list Z) (has : bool) (size : Z) (ovf : bool)
@@ -193,6 +205,7 @@ Inductive tcase :=
        (mlen fee msize cgas : Z) (ok : bool) (cost : Z)
 | TExec (opc : Z) (name : string) (g : ginfo)
 | TPre (addr : Z) (input : string) (gas : Z)
+| TPkgVars (names : list string)
 | TArity (fork opc : Z) (min_obs post : Z) (limit_ok : bool)
 | TRun (fork : Z) (p015 : bool) (code : string) (gas insz : Z) (cls gasleft rsz : Z)
 | TRunW (fork : Z) (p015 : bool) (code : string) (gas insz : Z) (selfbal : bool) (sub : Z) (cls gasleft rsz : Z).
@@ -225,6 +238,7 @@ Definition check (c : tcase) : bool :=
       | Some (Some (g, _, _)) => ok && (g =? cost)
       end
   | TExec opc name g => exec_matches name opc g
+  | TPkgVars names => str_list_eqb names known_pkg_vars
   | TPre addr input gas => pre_gas addr (map Z.of_N (unhex input)) =? gas
   | TArity fork opc min_obs post limit_ok =>
       let e := row_of fork opc in
